@@ -15,14 +15,21 @@ from translate import pyexpr2coq, c07_spec
 
 PROP = 'C07'
 REQUIRES = ['Calib.Interp']
-RULE = ('InterpCalibration / PointCalibration / FlatCalibration objects built from random tables (2-8 points; float, integer, '
-        'list, ndarray and pandas-Series tables; sorted and shuffled; integer-valued and arbitrary doubles; fixed gain 0 / '
-        'integer / arbitrary) queried at table points, strictly between neighbours, one ulp outside and far outside the '
-        'range, as scalar, list, 1-D and 2-D array, Series and DataFrame (get_db one-argument form); get_mean_sf over integer '
-        'ranges inside, straddling and outside the table and empty; every constructor (from_spl, from_db, from_pascals, '
-        'from_mv_pa, unity, as_attenuation) of every class with scalar and per-frequency arguments; util.db/dbi on scalars, '
-        'lists, arrays.  Non-trivial: the case mixes answered and unanswered frequencies, or uses a non-zero fixed gain or '
-        'attenuation, or is a constructor case.  Distinct = distinct case dictionaries.')
+RULE = ('InterpCalibration / PointCalibration / FlatCalibration objects built from random tables (2-8 points, or scalar '
+        'frequency/sensitivity for PointCalibration; list, tuple, ndarray (float, integer, read-only) and pandas-Series tables; '
+        'sorted and shuffled; the caller overwrites its table arrays after construction) with fixed gain 0 / integer / arbitrary '
+        'given by keyword, positionally, by default or by set_fixed_gain after construction; optional reference= (alias '
+        'get_<reference>), attrs=, phase= and numeric fill_value=.  Queried at table points, strictly between neighbours, one ulp '
+        'and one Hz outside, far outside, NaN, +-inf and with an empty array; frequency as Python float / int, np.float64 / '
+        'int64 / int32 / float32, 0-d array, list, tuple, float / integer / int32 / 2-D / read-only arrays (55% of the cases live '
+        'on integer frequencies with fractional sensitivities so that integer-typed containers are the common case); levels, '
+        'attenuations and voltages as float / int / np.int64; attenuation positionally and by keyword; get_db one-argument form '
+        'with float and integer Series index / DataFrame columns; get_phase; get_mean_sf with int / float / NumPy / off-integer '
+        'bounds inside, straddling and outside the table and empty; every constructor of every class with scalar, list, tuple, '
+        'integer, Series arguments, default vrms, fixed_gain= and attrs= passed through; util.db/dbi/patodb/dbtopa on scalars, '
+        'lists, tuples, arrays, Series, DataFrames, ints, with reference positionally and by keyword; load_demo_starship.  '
+        'Non-trivial: the case mixes answered and unanswered frequencies, or uses a non-zero fixed gain or attenuation, or is a '
+        'constructor / util / demo case.  Distinct = distinct case dictionaries.')
 TRUSTED = ['translate/pyexpr2coq.py + translate/c07_spec.py (fail-closed AST translator; self-tested on every run by an '
            'independent interpreter of the emitted text against the real functions)',
            'harness/C07.py (generators; exact conversion of doubles to dyadic rationals; comparison of array/Series/DataFrame '
@@ -31,8 +38,10 @@ TRUSTED = ['translate/pyexpr2coq.py + translate/c07_spec.py (fail-closed AST tra
 ASSUMPTIONS = ['the laws are proved over the real numbers; the implementation evaluates them in binary64 and agreement is '
                'observed to 1e-9 relative (float rounding of log10 and 10**x is not modelled)',
                'interpolation tables have >= 2 distinct finite frequencies (interp1d rejects shorter tables at construction) '
-               'and the default fill_value (NaN); a caller who passes fill_value explicitly opts out of NaN outside the range',
-               'get_mean_sf is exercised with integer-valued bounds (np.arange(flb, fub) = flb, flb+1, ..., fub-1)',
+               '; a caller who passes a numeric fill_value explicitly opts out of NaN outside the range (the option is checked '
+               'to be honoured; fill_value="extrapolate" and (below, above) tuples are not exercised)',
+               'get_mean_sf: the frequency list np.arange(flb, fub) is evaluated by the harness with the same expression and handed '
+               'to the model',
                'voltages, Pascal magnitudes and mV/Pa values are > 0 (arguments of log10)']
 
 GEN = 'gen/CalibGen.v'
@@ -176,31 +185,113 @@ def _tbl(fs, ss):
     return listlit([f'({dy(f)}, {dy(s)})' for f, s in zip(fs, ss)])
 
 
+def _integral(x):
+    return math.isfinite(x) and float(x) == int(x)
+
+
+def _num(x, kind):
+    """The caller's representation of a number: Python float / int, NumPy scalar, 0-d array.  Kinds that cannot hold
+    the value exactly fall back to the Python float, so the value the code sees is always exactly x."""
+    x = float(x)
+    if kind == 'int' and _integral(x):
+        return int(x)
+    if kind == 'npint' and _integral(x):
+        return np.int64(int(x))
+    if kind == 'npint32' and _integral(x) and abs(x) < 2 ** 31:
+        return np.int32(int(x))
+    if kind == 'npfloat':
+        return np.float64(x)
+    if kind == 'f32' and math.isfinite(x) and float(np.float32(x)) == x:
+        return np.float32(x)
+    if kind == '0d':
+        return np.array(x)
+    if kind == '0dint' and _integral(x):
+        return np.array(int(x))
+    return x
+
+
 def _table_arg(vals, form):
     import pandas as pd
     if form == 'list':
         return list(vals)
-    if form == 'int':
+    if form == 'tuple':
+        return tuple(vals)
+    if form == 'intlist' and all(_integral(v) for v in vals):
+        return [int(v) for v in vals]
+    if form == 'int' and all(_integral(v) for v in vals):
         return np.array([int(v) for v in vals])
     if form == 'series':
         return pd.Series(list(vals))
-    return np.array(vals, dtype=float)
+    a = np.array(vals, dtype=float)
+    if form == 'readonly':
+        a.flags.writeable = False
+    return a
 
 
-def _make(case):
+def _clobber(x):
+    """The caller reuses the arrays it passed to the constructor."""
+    import pandas as pd
+    if isinstance(x, np.ndarray) and x.flags.writeable:
+        x[...] = 12345
+    elif isinstance(x, pd.Series):
+        x.iloc[:] = 12345
+    elif isinstance(x, list):
+        x[:] = [12345] * len(x)
+
+
+def _make(case, g=None):
     C = _cal()
     k = case['kind']
+    g = _num(case['g'] if g is None else g, case.get('gkind', 'float'))
+    kw = {}
+    if case.get('ref') is not None:
+        kw['reference'] = case['ref']
+    if case.get('attrs'):
+        kw['attrs'] = {'source': 'audit'}
+    g0 = case.get('set_g')                 # construct with another gain, then set_fixed_gain(g)
+    ctor_g = g if g0 is None else _num(g0, case.get('gkind', 'float'))
+    mode = case.get('g_mode', 'kw')        # fixed gain by keyword / positionally / left at its default when it is 0
+    pos = ()
+    if mode == 'pos':
+        pos = (ctor_g,)
+    elif mode == 'kw' or ctor_g != 0:
+        kw['fixed_gain'] = ctor_g
     if k == 'flat':
-        return C.FlatCalibration(case['s'], fixed_gain=case['g'])
-    fs = _table_arg(case['freqs'], case['form_f'])
-    ss = _table_arg(case['sens'], case['form_s'])
-    cls = C.InterpCalibration if k == 'interp' else C.PointCalibration
-    return cls(fs, ss, fixed_gain=case['g'])
+        cal = C.FlatCalibration(_num(case['s'], case.get('skind', 'float')), *pos, **kw)
+    else:
+        if case.get('scalar_ctor'):
+            fs, ss = _num(case['freqs'][0], case.get('qkind', 'float')), _num(case['sens'][0], case.get('skind', 'float'))
+        else:
+            fs = _table_arg(case['freqs'], case['form_f'])
+            ss = _table_arg(case['sens'], case['form_s'])
+        ph = None
+        if k == 'interp':
+            if case.get('phase') is not None:
+                ph = kw['phase'] = _table_arg(case['phase'], case.get('form_p', 'list'))
+            if case.get('fill') is not None:
+                kw['fill_value'] = case['fill']
+        cls = C.InterpCalibration if k == 'interp' else C.PointCalibration
+        cal = cls(fs, ss, *pos, **kw)
+        for x in (fs, ss, ph):
+            _clobber(x)
+    if g0 is not None:
+        cal.set_fixed_gain(g)
+    return cal
+
+
+def _interp_exact(pts, q):
+    pts = sorted(pts)
+    if q < pts[0][0] or q > pts[-1][0]:
+        return 'none'
+    for (x0, y0), (x1, y1) in zip(pts, pts[1:]):
+        if x0 <= q <= x1:
+            return y0 + (y1 - y0) * (q - x0) / (x1 - x0)
+    raise AssertionError
 
 
 def _expected_sens(case, q):
-    """Exact (Fraction) sensitivity the PROPERTY prescribes at q, 'none' outside / uncalibrated.  Independent of the
-    implementation and of the Coq model."""
+    """Exact (Fraction) sensitivity the PROPERTY prescribes at q, 'none' outside / uncalibrated (with an explicit numeric
+    fill_value: that value, the caller's opt-out).  Independent of the implementation and of the Coq model."""
     g = Fraction(case['g'])
     if case['kind'] == 'flat':
         return Fraction(case['s']) - g
@@ -211,33 +302,111 @@ def _expected_sens(case, q):
             if f == q:
                 return s - g
         return 'none'
-    pts.sort()
-    if q < pts[0][0] or q > pts[-1][0]:
-        return 'none'
-    for (x0, y0), (x1, y1) in zip(pts, pts[1:]):
-        if x0 <= q <= x1:
-            return y0 + (y1 - y0) * (q - x0) / (x1 - x0) - g
-    raise AssertionError
+    w = _interp_exact(pts, q)
+    if w == 'none':
+        return 'none' if case.get('fill') is None else Fraction(case['fill']) - g
+    return w - g
+
+
+def _expected_phase(case, q):
+    w = _interp_exact([(Fraction(f), Fraction(p)) for f, p in zip(case['freqs'], case['phase'])], Fraction(q))
+    if w == 'none' and case.get('fill') is not None:
+        return Fraction(case['fill'])
+    return w
+
+
+def _outside(case, q):
+    """q has no calibrated sensitivity (regardless of an explicit fill value)."""
+    if case['kind'] == 'flat':
+        return False
+    if case['kind'] == 'point':
+        return all(Fraction(f) != Fraction(q) for f in case['freqs'])
+    return not min(case['freqs']) <= q <= max(case['freqs'])
+
+
+def _lav(case):
+    nk = case.get('nkind', 'float')
+    return _num(case['L'], nk), _num(case['a'], nk), _num(case['v'], nk)
+
+
+def _container(qs, form):
+    ints = [int(q) for q in qs] if all(_integral(q) for q in qs) else None
+    if form == 'list':
+        return list(qs)
+    if form == 'tuple':
+        return tuple(qs)
+    if form == '2d':
+        return np.array(qs, dtype=float).reshape(2, -1)
+    if form == 'intarr':
+        return np.array(ints)
+    if form == 'int32arr':
+        return np.array(ints, dtype=np.int32)
+    if form == 'intlist':
+        return list(ints)
+    if form == 'inttuple':
+        return tuple(ints)
+    if form == 'int2d':
+        return np.array(ints).reshape(2, -1)
+    a = np.array(qs, dtype=float)
+    if form == 'readonly':
+        a.flags.writeable = False
+    return a
 
 
 # ====================================================================================================================
 # implementation side
-def _per_query(cal, q, L, a, v):
+def _calls(cal, case):
+    """get_sf / get_gain / get_mean_sf with the attenuation given positionally or by keyword."""
+    if case.get('kw'):
+        return (lambda q, L, a: cal.get_sf(q, L, attenuation=a), lambda q, L, a: cal.get_gain(q, L, attenuation=a),
+                lambda lo, hi, L, a: cal.get_mean_sf(lo, hi, L, attenuation=a))
+    return cal.get_sf, cal.get_gain, cal.get_mean_sf
+
+
+def _per_query(cal, q, case):
     """Everything the property observes at one scalar frequency."""
+    L, a, v = _lav(case)
+    q = _num(q, case.get('qkind', 'float'))
+    get_sf, get_gain, _ = _calls(cal, case)
+
     def run():
         s = cal.get_sens(q)
-        sf = cal.get_sf(q, L, a)
+        sf = get_sf(q, L, a)
         sf0 = cal.get_sf(q, L)
         db = cal.get_db(q, v)
         out = {'sens': _n(s), 'sf': _n(sf), 'sf0': _n(sf0), 'db': _n(db),
                'rt': _n(cal.get_db(q, sf0)),                      # level -> volts -> level
                'inv': _n(cal.get_sf(q, db)),                      # volts -> level -> volts
-               'sf20': _n(cal.get_sf(q, L, a + 20)),
-               'sfL20': _n(cal.get_sf(q, L + 20, a)),
+               'sf20': _n(get_sf(q, L, a + 20)),
+               'sfL20': _n(get_sf(q, L + 20, a)),
                'db10': _n(cal.get_db(q, 10 * v)),
-               'gain': _n(cal.get_gain(q, L, a)),
+               'gain': _n(get_gain(q, L, a)),
+               'gain0': _n(cal.get_gain(q, L)),
                'att': _n(cal.get_attenuation(q, v, L))}
-        out['att_inv'] = _n(cal.get_sf(q, L, cal.get_attenuation(q, v, L)))
+        out['att_inv'] = _n(get_sf(q, L, cal.get_attenuation(q, v, L)))
+        if case.get('ref'):
+            out['alias'] = _n(getattr(cal, 'get_' + case['ref'].lower())(q, v))
+        return out
+    return _try(run)
+
+
+def _arr_form(cal, case, form):
+    L, a, v = _lav(case)
+    get_sf, get_gain, _ = _calls(cal, case)
+    arg = _container(case['qs'], form)
+    before = np.array(arg, dtype=float).copy()
+
+    def run():
+        s = cal.get_sens(arg)
+        out = {'sens': _nl(s), 'sens_is_float': np.asarray(s).dtype.kind == 'f'}
+        try:                                   # the caller writes into what it received ...
+            np.asarray(s)[...] = -777.0
+        except ValueError:
+            pass
+        sf = get_sf(arg, L, a)
+        out.update(sf=_nl(sf), shape_ok=np.shape(sf) == np.shape(arg), sens2=_nl(cal.get_sens(arg)),   # ... and asks again
+                   db=_nl(cal.get_db(arg, v)), gain=_nl(get_gain(arg, L, a)), att=_nl(cal.get_attenuation(arg, v, L)))
+        out['arg_unchanged'] = bool(np.array_equal(np.array(arg, dtype=float), before))
         return out
     return _try(run)
 
@@ -245,39 +414,44 @@ def _per_query(cal, q, L, a, v):
 def _impl_lookup(case):
     import pandas as pd
     cal = _make(case)
-    qs, L, a, v = case['qs'], case['L'], case['a'], case['v']
-    res = {'q': [_per_query(cal, q, L, a, v) for q in qs]}
-    # array / list / 2-D forms
+    qs = case['qs']
+    L, a, v = _lav(case)
+    res = {'q': [_per_query(cal, q, case) for q in qs]}
     for form in case['forms']:
-        if form == 'list':
-            arg = list(qs)
-        elif form == '2d':
-            arg = np.array(qs, dtype=float).reshape(2, -1)
-        elif form == 'intarr':
-            arg = np.array([int(q) for q in qs])
-        else:
-            arg = np.array(qs, dtype=float)
-        res['arr_' + form] = _try(lambda: {'sens': _nl(cal.get_sens(arg)), 'sf': _nl(cal.get_sf(arg, L, a)),
-                                            'db': _nl(cal.get_db(arg, v)), 'gain': _nl(cal.get_gain(arg, L, a)),
-                                            'att': _nl(cal.get_attenuation(arg, v, L)),
-                                            'shape_ok': np.shape(cal.get_sf(arg, L, a)) == np.shape(arg)})
-    vs = [v * (1 + i) for i in range(len(qs))]
-    res['series'] = _try(lambda: _nl(cal.get_db(pd.Series(vs, index=np.array(qs, dtype=float))).values))
-    res['series_idx_ok'] = True
-    df = pd.DataFrame([vs, [10 * x for x in vs]], columns=np.array(qs, dtype=float), index=['a', 'b'])
+        res['arr_' + form] = _arr_form(cal, case, form)
+    # zero-length request: empty answer or an error
+    e = np.array([])
+    res['empty'] = _try(lambda: [int(np.size(cal.get_sens(e))), int(np.size(cal.get_sf(e, L, a))),
+                                 int(np.size(cal.get_db(e, v)))])
+    if case['kind'] != 'flat':
+        res['nanq'] = [_try(lambda x=x: _n(cal.get_sens(x))) for x in (float('nan'), float('inf'), float('-inf'))]
+    # get_db one-argument forms; float or integer index / columns
+    vs = [float(v) * (1 + i) for i in range(len(qs))]
+    idx = np.array([int(q) for q in qs]) if (case.get('pd_int') and all(_integral(q) for q in qs)) else np.array(qs, dtype=float)
+    volt = [int(x) for x in vs] if all(_integral(x) for x in vs) and case.get('nkind', 'float') != 'float' else vs
+    res['series'] = _try(lambda: _nl(cal.get_db(pd.Series(volt, index=idx)).values))
+    df = pd.DataFrame([volt, [10 * x for x in volt]], columns=idx, index=['a', 'b'])
     res['frame'] = _try(lambda: _nl(cal.get_db(df).values))
     res['scalar_db_rows'] = [[_try(lambda q=q, x=x * m: _n(cal.get_db(q, x))) for q, x in zip(qs, vs)] for m in (1, 10)]
     # the second calibration: same table, fixed gain + 20 dB
-    c2 = dict(case, g=case['g'] + 20)
-    cal2 = _make(c2)
+    cal2 = _make(case, g=case['g'] + 20)
     res['g20'] = [_try(lambda q=q: {'sf': _n(cal2.get_sf(q, L, a)), 'db': _n(cal2.get_db(q, v))}) for q in qs]
+    # phase (InterpCalibration): same interpolation, no fixed gain
+    if case['kind'] == 'interp':
+        qk = case.get('qkind', 'float')
+        res['phase'] = [_try(lambda q=q: _n(cal.get_phase(_num(q, qk)))) for q in qs]
+        res['phase_arr'] = _try(lambda: _nl(cal.get_phase(_container(qs, case['forms'][0]))))
     # get_mean_sf
     if case.get('mean'):
-        flb, fub = case['mean']
-        res['mean'] = _try(lambda: _n(cal.get_mean_sf(flb, fub, L, a)))
-        res['mean20'] = _try(lambda: _n(cal.get_mean_sf(flb, fub, L, a + 20)))
+        mk = case.get('mean_kind', 'int')
+        flb, fub = (_num(x, mk) for x in case['mean'])
+        get_mean = _calls(cal, case)[2]
+        res['mean_fs'] = [float(f) for f in np.arange(flb, fub)]      # the code's own expression for the frequencies
+        res['mean'] = _try(lambda: _n(get_mean(flb, fub, L, a)))
+        res['mean20'] = _try(lambda: _n(get_mean(flb, fub, L, a + 20)))
         res['mean_default'] = _try(lambda: _n(cal.get_mean_sf(flb, fub, L)))
     # malformed calls fail loudly
+    res['bad0'] = _try(lambda: _n(cal.get_db()))
     res['bad1'] = _try(lambda: _n(cal.get_db(1.0)))
     res['bad3'] = _try(lambda: _n(cal.get_db(1.0, 2.0, 3.0)))
     return res
@@ -288,29 +462,37 @@ def _impl_ctor(case):
     name, cls_name, A = case['ctor'], case['cls'], case['args']
     cls = {'flat': C.FlatCalibration, 'interp': C.InterpCalibration, 'point': C.PointCalibration}[cls_name]
     F = case.get('freqs', [1000.0])
-    per = case.get('per_freq', False)     # per-frequency array arguments (broadcasting) for the table classes
+    nk = case.get('nkind', 'float')
+    kw = {}
+    if case.get('fixed_gain') is not None:
+        kw['fixed_gain'] = _num(case['fixed_gain'], nk)      # passed through **kwargs to the class
+    if case.get('attrs'):
+        kw['attrs'] = {'source': 'audit'}
+    omit = case.get('omit_vrms', False)                      # rely on the default vrms=1
 
     def arr(x):
-        return np.array(x, dtype=float) if isinstance(x, list) else x
+        if isinstance(x, list):
+            return _table_arg(x, case.get('arg_form', 'array'))
+        return _num(x, nk)
+    first = {'from_spl': 'spl', 'from_db': 'level', 'from_pascals': 'magnitude'}.get(name)
     if cls_name == 'flat':
-        if name in ('unity',):
+        if name == 'unity':
             cal = cls.unity()
         elif name == 'as_attenuation':
-            cal = cls.as_attenuation(A['vrms'])
+            cal = cls.as_attenuation(**kw) if omit else cls.as_attenuation(arr(A['vrms']), **kw)
         elif name == 'from_mv_pa':
-            cal = cls.from_mv_pa(A['mv_pa'])
+            cal = cls.from_mv_pa(arr(A['mv_pa']), **kw)
         else:
-            first = {'from_spl': 'spl', 'from_db': 'level', 'from_pascals': 'magnitude'}[name]
-            cal = getattr(cls, name)(A[first], A['vrms'])
+            cal = getattr(cls, name)(arr(A[first]), **kw) if omit else getattr(cls, name)(arr(A[first]), arr(A['vrms']), **kw)
     else:
-        first = {'from_spl': 'spl', 'from_db': 'level', 'from_pascals': 'magnitude'}[name]
         x = arr(A[first])
         if not isinstance(A[first], list):
             x = np.full(len(F), float(A[first]))
-        cal = getattr(cls, name)(np.array(F, dtype=float), x, arr(A['vrms']))
+        fq = _table_arg(F, case.get('form_f', 'array'))
+        cal = getattr(cls, name)(fq, x, **kw) if omit else getattr(cls, name)(fq, x, arr(A['vrms']), **kw)
     res = {'sens': _nl(cal.sensitivity), 'reference': cal.reference}
     qs = F
-    vr = A.get('vrms', 1.0)
+    vr = 1.0 if omit else A.get('vrms', 1.0)
     vrl = vr if isinstance(vr, list) else [vr] * len(qs)
     res['db_at_vrms'] = [_n(cal.get_db(q, x)) for q, x in zip(qs, vrl)]
     if name == 'from_mv_pa':
@@ -320,7 +502,7 @@ def _impl_ctor(case):
         res['from_to'] = _n(cls.from_mv_pa(cal.to_mv_pa()).sensitivity)
     if name in ('from_spl', 'from_mv_pa'):
         res['alias'] = [_n(cal.get_spl(q, x)) for q, x in zip(qs, vrl)]
-    L = case['L']
+    L = _num(case['L'], nk)
     res['sf_L'] = [_n(cal.get_sf(q, L)) for q in qs]
     return res
 
@@ -328,18 +510,34 @@ def _impl_ctor(case):
 def _impl_util(case):
     import pandas as pd
     from psiaudio import util
-    xs, ds, r = case['xs'], case['ds'], case['r']
+    xs, ds = case['xs'], case['ds']
+    nk = case.get('nkind', 'float')
+    r = _num(case['r'], nk)
     form = case['form']
 
     def mk(v):
-        return {'list': list(v), 'array': np.array(v), 'series': pd.Series(v), 'scalar': v[0]}[form]
+        if nk != 'float' and all(_integral(x) for x in v):
+            v = [int(x) for x in v]
+        return {'list': list(v), 'tuple': tuple(v), 'array': np.array(v), 'series': pd.Series(v),
+                'frame': pd.DataFrame([v]), 'scalar': _num(v[0], nk)}[form]
     arg, darg = mk(xs), mk(ds)
     d = util.db(arg, r)
     i = util.dbi(darg, r)
     return {'db': _nl(d), 'dbi_db': _nl(util.dbi(d, r)), 'dbi': _nl(i), 'db_dbi': _nl(util.db(i, r)),
+            'db_kw': _nl(util.db(arg, reference=r)), 'dbi_kw': _nl(util.dbi(darg, reference=r)),
             'db_times10': _nl(util.db(np.asarray(arg) * 10, r)), 'dbi_plus20': _nl(util.dbi(np.asarray(darg) + 20, r)),
             'patodb': _nl(util.patodb(arg)), 'dbtopa_patodb': _nl(util.dbtopa(util.patodb(arg))),
-            'db_default': _nl(util.db(arg))}
+            'db_default': _nl(util.db(arg)), 'dbi_default': _nl(util.dbi(darg))}
+
+
+def _impl_starship(case):
+    """load_demo_starship(): the shipped table through InterpCalibration (with phase)."""
+    C = _cal()
+    cal = C.load_demo_starship()
+    qs = case['qs']
+    return {'sens': [_n(cal.get_sens(q)) for q in qs], 'phase': [_n(cal.get_phase(q)) for q in qs],
+            'arr': _nl(cal.get_sens(np.array(qs))), 'rt': [_n(cal.get_db(q, cal.get_sf(q, case['L']))) for q in qs],
+            'out': [_n(cal.get_sens(q)) for q in case['out']]}
 
 
 def impl(case):
@@ -357,6 +555,8 @@ def _impl(case):
         return _impl_ctor(case)
     if k == 'util':
         return _impl_util(case)
+    if k == 'starship':
+        return _impl_starship(case)
     raise KeyError(k)
 
 
@@ -376,6 +576,7 @@ def _glue(case, res):
             if _DEFS is not None:
                 for name, key, val in (('cal_get_sf', 'sf', (s, L, a)), ('cal_get_sf', 'sf0', (s, L, 0.0)),
                                        ('cal_get_db', 'db', (s, v)), ('cal_get_gain', 'gain', (s, L, a)),
+                                       ('cal_get_gain', 'gain0', (s, L, 0.0)),
                                        ('cal_get_attenuation', 'att', (s, v, L))):
                     with np.errstate(all='ignore'):
                         m = _n(_gen(name, *val))
@@ -393,9 +594,11 @@ def _glue(case, res):
                 continue
             if not arr['shape_ok']:
                 bad.append(f'{form} form: result shape differs from the frequency shape')
-            for key in ('sens', 'sf', 'db', 'gain', 'att'):
-                if not _closel(arr[key], [r[key] for r in scal], 1e-12):
-                    bad.append(f'{form} form {key} {arr[key]} != scalar {[r[key] for r in scal]}')
+            if not arr['arg_unchanged']:
+                bad.append(f'{form} form: the frequency argument was modified')
+            for key, skey in (('sens', 'sens'), ('sens2', 'sens'), ('sf', 'sf'), ('db', 'db'), ('gain', 'gain'), ('att', 'att')):
+                if not _closel(arr[key], [r[skey] for r in scal], 1e-12):
+                    bad.append(f'{form} form {key} {arr[key]} != scalar {[r[skey] for r in scal]}')
         rows = res['scalar_db_rows']
         anyerr = any(_iserr(x) for row in rows for x in row)
         if _iserr(res['series']) != any(_iserr(x) for x in rows[0]) or \
@@ -404,13 +607,15 @@ def _glue(case, res):
         if _iserr(res['frame']) != anyerr or \
                 (not _iserr(res['frame']) and not _closel(res['frame'], rows[0] + rows[1], 1e-12)):
             bad.append(f'get_db(DataFrame) {res["frame"]} != two-argument form {rows}')
+        if k == 'interp' and not _closel(res['phase_arr'], res['phase'] if not any(_iserr(p) for p in res['phase'])
+                                         else {'err': 'ValueError'}, 1e-12):
+            bad.append(f'get_phase array form {res["phase_arr"]} != scalar form {res["phase"]}')
         if case.get('mean') and not _iserr(res['mean']) and _DEFS is not None:
-            flb, fub = case['mean']
             cal = _make(case)
             with np.errstate(all='ignore'):
-                ss = [float(cal.get_sens(float(f))) for f in range(int(flb), int(fub))]
+                ss = [float(cal.get_sens(f)) for f in res['mean_fs']]
                 want = float(np.mean([_gen('cal_get_sf', s, L, a) for s in ss])) if k != 'flat' else \
-                    float(_gen('flat_get_mean_sf', ss[0] if ss else float(cal.get_sens(flb)), L, a))
+                    float(_gen('flat_get_mean_sf', float(cal.get_sens(case['mean'][0])), L, a))
             if not _close(_n(want), res['mean'], 1e-11):
                 bad.append(f'get_mean_sf {res["mean"]} != mean of generated get_sf {want}')
     elif k == 'ctor' and _DEFS is not None:
@@ -419,7 +624,8 @@ def _glue(case, res):
         params = _DEFS[coq][0]
         n = len(res['sens'])
         for i in range(n):
-            args = [A[p][i] if isinstance(A[p], list) else A[p] for p in params]
+            args = [1.0 if (p == 'vrms' and case.get('omit_vrms')) else A[p][i] if isinstance(A[p], list) else A[p]
+                    for p in params]
             m = _n(_gen(coq, *[float(x) for x in args]))
             if not _close(m, res['sens'][i], 1e-12):
                 bad.append(f'{coq}{args} = {m} but the constructor stored sensitivity {res["sens"][i]}')
@@ -435,11 +641,14 @@ def _glue(case, res):
     return bad
 
 
-def _obs(case, q, r):
-    if _iserr(r) or r['sens'] is None:
+def _obs(val, exact):
+    if _iserr(val) or val is None or isinstance(val, str):
         return 'ONone'
-    exact = case['g'] == 0 and q in case.get('freqs', [])
-    return f"({'OExact' if exact else 'OVal'} {dy(r['sens'])})"
+    return f"({'OExact' if exact else 'OVal'} {dy(val)})"
+
+
+def _optq(x):
+    return 'None' if x is None else f'(Some {dy(x)})'
 
 
 def term(case, res):
@@ -457,15 +666,37 @@ def term(case, res):
             if _iserr(r) and r['err'] != 'CalibrationError':
                 return 'false'
         fs, ss = case['freqs'], case['sens']
+        order = list(range(len(fs)))
         if k == 'interp':
-            order = sorted(range(len(fs)), key=lambda i: fs[i])       # interp1d sorts the table
-            fs, ss = [fs[i] for i in order], [ss[i] for i in order]
-        t = _tbl(fs, ss)
-        qs = listlit([f'({dy(q)}, {_obs(case, q, r)})' for q, r in zip(case['qs'], res['q'])])
-        parts.append(f"check_{k} {t} {dy(case['g'])} {qs}")
+            order = sorted(order, key=lambda i: fs[i])               # interp1d sorts the table
+        t = _tbl([fs[i] for i in order], [ss[i] for i in order])
+        g0 = case['g'] == 0
+        fill = case.get('fill')
+        qs = listlit([f"({dy(q)}, {_obs(r if _iserr(r) else r['sens'], g0 and (q in fs or (fill is not None and _outside(case, q))))})"
+                      for q, r in zip(case['qs'], res['q'])])
+        if k == 'interp':
+            parts.append(f"check_interp_fill {t} {_optq(fill)} {dy(case['g'])} {qs}")
+            if fill is None:
+                parts.append(f"check_interp {t} {dy(case['g'])} {qs}")
+            if case.get('phase') is not None:
+                tp = _tbl([fs[i] for i in order], [case['phase'][i] for i in order])
+                qp = listlit([f"({dy(q)}, {_obs(p, q in fs or (fill is not None and _outside(case, q)))})"
+                              for q, p in zip(case['qs'], res['phase'])])
+                parts.append(f"check_interp_fill {tp} {_optq(fill)} {dy(0.0)} {qp}")
+            elif not all(_iserr(p) and p['err'] == 'ValueError' for p in res['phase']):
+                return 'false'                                       # no phase data: get_phase raises ValueError
+        else:
+            parts.append(f"check_point {t} {dy(case['g'])} {qs}")
         if case.get('mean'):
             flb, fub = case['mean']
-            parts.append(f"check_mean_{k} {t} {zlit(flb)} {zlit(fub)} {blit(_iserr(res['mean']))}")
+            raised = blit(_iserr(res['mean']))
+            mfs = listlit([dy(f) for f in res['mean_fs']])
+            if k == 'interp':
+                parts.append(f"check_mean_fs_interp {t} {_optq(fill)} {mfs} {raised}")
+            else:
+                parts.append(f"check_mean_fs_point {t} {mfs} {raised}")
+            if _integral(flb) and _integral(fub) and fill is None:
+                parts.append(f"check_mean_{k} {t} {zlit(flb)} {zlit(fub)} {raised}")
     elif k == 'flat':
         vals = [r['sens'] for r in res['q']]
         if any(_iserr(r) for r in res['q']) or any(x is None for x in vals):
@@ -473,6 +704,12 @@ def term(case, res):
         parts.append(f"check_flat {dy(case['s'])} {dy(case['g'])} {listlit([dy(x) for x in vals])}")
         if case.get('mean') and _iserr(res['mean']):
             return 'false'                                         # a flat calibration answers every range
+    elif k == 'starship':
+        fs, ss, ps = case['win_f'], case['win_s'], case['win_p']
+        parts.append(f"check_interp {_tbl(fs, ss)} {dy(0.0)} " +
+                     listlit([f'({dy(q)}, {_obs(s, False)})' for q, s in zip(case['qs'], res['sens'])]))
+        parts.append(f"check_interp {_tbl(fs, ps)} {dy(0.0)} " +
+                     listlit([f'({dy(q)}, {_obs(p, False)})' for q, p in zip(case['qs'], res['phase'])]))
     return ' && '.join(f'({p})' for p in parts)
 
 
@@ -496,10 +733,11 @@ def _oracle_lookup(case, res):
                     return f'{k}: frequency {q} is outside the calibrated range but {key} = {r[key]} (neither NaN nor an error)'
             continue
         if _iserr(r):
-            return f'{k}: frequency {q} is calibrated but the request raised {r["err"]}'
+            return f'{k}: frequency {q} ({case.get("qkind", "float")}) is calibrated but the request raised {r["err"]}'
         w = float(want)
         if r['sens'] is None or abs(r['sens'] - w) > TOL * max(1.0, abs(w)):
-            return f'{k}: sensitivity at {q} Hz is {r["sens"]}, the table (linear in dB, minus fixed gain {g}) gives {w}'
+            return (f'{k}: sensitivity at {q} Hz ({case.get("qkind", "float")}) is {r["sens"]}, the table (linear in dB, '
+                    f'minus fixed gain {g}) gives {w}')
         if g == 0 and q in case.get('freqs', []) and k == 'interp' and r['sens'] != w:
             return f'{k}: table point {q} Hz not reproduced exactly: {r["sens"]} != {w}'
         checks = [('get_db(get_sf(L)) = L', r['rt'], L),
@@ -508,15 +746,20 @@ def _oracle_lookup(case, res):
                   ('get_sf(L+20, a) = 10 get_sf(L, a)', r['sfL20'], None if r['sf'] is None else 10 * r['sf']),
                   ('get_db(10 v) = get_db(v) + 20', r['db10'], None if r['db'] is None else r['db'] + 20),
                   ('get_sf(L, a) = 10^((L - sens + a)/20)', r['sf'], 10 ** ((L - w + a) / 20)),
+                  ('get_sf(L) = 10^((L - sens)/20)', r['sf0'], 10 ** ((L - w) / 20)),
                   ('get_db(v) = 20 log10 v + sens', r['db'], _db_of(v) + w),
                   ('get_gain = 20 log10 get_sf', r['gain'], None if not r['sf'] else _db_of(r['sf'])),
                   ('get_gain = L - sens + a', r['gain'], L - w + a),
+                  ('get_gain default attenuation = L - sens', r['gain0'], L - w),
                   ('get_sf(L, get_attenuation(v, L)) = v', r['att_inv'], v),
                   ('fixed gain + 20 dB: get_sf x 10', None if _iserr(r2) else r2['sf'], None if r['sf'] is None else 10 * r['sf']),
                   ('fixed gain + 20 dB: get_db - 20', None if _iserr(r2) else r2['db'], None if r['db'] is None else r['db'] - 20)]
+        if case.get('ref'):
+            checks.append((f'get_{case["ref"].lower()} alias = get_db', r.get('alias'), r['db']))
         for what, got, exp in checks:
             if got is None or exp is None or isinstance(got, str) or not _close(got, exp):
-                return f'{k} at {q} Hz (L={L}, a={a}, v={v}, fixed gain {g}): {what} fails: got {got}, expected {exp}'
+                return (f'{k} at {q} Hz (L={L}, a={a}, v={v}, fixed gain {g}, kinds {case.get("qkind")}/{case.get("nkind")}'
+                        f'{", set_fixed_gain" if case.get("set_g") is not None else ""}): {what} fails: got {got}, expected {exp}')
     # array / Series / DataFrame forms must tell the same story as the scalar form
     scal = res['q']
     for form in case['forms']:
@@ -525,9 +768,18 @@ def _oracle_lookup(case, res):
             if not any(_iserr(r) for r in scal):
                 return f'{k}: {form} frequency form raised {arr["err"]} although every scalar request is answered'
             continue
+        if any(len(arr[key]) != len(scal) for key in ('sens', 'sens2', 'sf', 'db', 'gain', 'att')):
+            return (f'{k}: {form} frequency form with {len(scal)} frequencies returns '
+                    f'{[len(arr[key]) for key in ("sens", "sf", "db", "gain", "att")]} values')
         for i, (q, r) in enumerate(zip(case['qs'], scal)):
-            if _iserr(r) or not _close(arr['sf'][i], r['sf'], 1e-12) or not _close(arr['db'][i], r['db'], 1e-12):
-                return f'{k}: {form} form at {q} Hz gives sf {arr["sf"][i]}, db {arr["db"][i]}; scalar form {r}'
+            if _iserr(r) or not _close(arr['sf'][i], r['sf'], 1e-12) or not _close(arr['db'][i], r['db'], 1e-12) \
+                    or not _close(arr['sens'][i], r['sens'], 1e-12):
+                return (f'{k}: {form} form at {q} Hz gives sens {arr["sens"][i]}, sf {arr["sf"][i]}, db {arr["db"][i]}; '
+                        f'scalar form {r}')
+            if not _close(arr['sens2'][i], r['sens'], 1e-12):
+                return f'{k}: {form} form: second get_sens after the caller wrote into the first result gives {arr["sens2"][i]}'
+        if not arr['arg_unchanged']:
+            return f'{k}: {form} form: the frequency argument was modified by the call'
     rows = res['scalar_db_rows']
     for what, got, exp in (('Series', res['series'], rows[0]), ('DataFrame', res['frame'], rows[0] + rows[1])):
         if _iserr(got):
@@ -535,10 +787,33 @@ def _oracle_lookup(case, res):
                 return f'{k}: get_db({what}) raised {got["err"]}'
         elif any(_iserr(x) for x in exp) or not _closel(got, exp, 1e-12):
             return f'{k}: get_db({what}) = {got}, two-argument form gives {exp}'
+    # zero-length and non-finite requests
+    if not _iserr(res['empty']) and any(n != 0 for n in res['empty']):
+        return f'{k}: an empty frequency array gives results of sizes {res["empty"]}'
+    if k != 'flat':
+        nq = res['nanq']
+        if not (_iserr(nq[0]) or nq[0] is None):
+            return f'{k}: get_sens(NaN) = {nq[0]}'
+        for x, got in zip(('inf', '-inf'), nq[1:]):
+            if not (_iserr(got) or got is None) and case.get('fill') is None:
+                return f'{k}: get_sens({x}) = {got}'
+    # phase: reproduced at the table points, linear between, NaN outside; error when there is no phase data
+    if k == 'interp':
+        if case.get('phase') is None:
+            if not all(_iserr(p) for p in res['phase']):
+                return f'interp: get_phase without phase data returned {res["phase"]}'
+        else:
+            for q, p in zip(case['qs'], res['phase']):
+                w = _expected_phase(case, q)
+                if w == 'none':
+                    if not (_iserr(p) or p is None):
+                        return f'interp: get_phase({q}) outside the table = {p}'
+                elif _iserr(p) or p is None or not _close(p, float(w)) or (q in case['freqs'] and p != float(w)):
+                    return f'interp: get_phase({q}) = {p}, the table gives {float(w)}'
     # get_mean_sf
     if case.get('mean'):
         flb, fub = case['mean']
-        fr = list(range(int(flb), int(fub)))
+        fr = res['mean_fs']
         wants = [_expected_sens(case, f) for f in fr]
         m = res['mean']
         if k != 'flat' and (not fr or any(w == 'none' for w in wants)):
@@ -557,7 +832,10 @@ def _oracle_lookup(case, res):
             if _iserr(m20) or m20 is None or not _close(m20, 10 * m):
                 return (f'{k}: get_mean_sf({flb}, {fub}, {L}, attenuation={a + 20}) = {m20} is not 10 x '
                         f'get_mean_sf(..., attenuation={a}) = {m}')
-    for key in ('bad1', 'bad3'):
+            md = res['mean_default']
+            if _iserr(md) or md is None or not _close(md * 10 ** (a / 20), m):
+                return f'{k}: get_mean_sf default attenuation {md} x 10^({a}/20) != {m}'
+    for key in ('bad0', 'bad1', 'bad3'):
         if not _iserr(res[key]):
             return f'{k}: malformed get_db call returned {res[key]} instead of raising'
     return None
@@ -566,11 +844,12 @@ def _oracle_lookup(case, res):
 def _oracle_ctor(case, res):
     name, A, L = case['ctor'], case['args'], case['L']
     n = len(res['sens'])
+    fg = case.get('fixed_gain') or 0.0
 
     def at(x, i):
         return x[i] if isinstance(x, list) else x
     for i in range(n):
-        vr = at(A.get('vrms', 1.0), i)
+        vr = 1.0 if case.get('omit_vrms') else at(A.get('vrms', 1.0), i)
         if name in ('from_spl', 'from_db'):
             lvl = at(A['spl' if name == 'from_spl' else 'level'], i)
         elif name == 'from_pascals':
@@ -579,12 +858,13 @@ def _oracle_ctor(case, res):
             lvl = 0.0
         else:
             lvl = None
-        tag = f"{case['cls']}.{name}({A})"
+        tag = f"{case['cls']}.{name}({A}, fixed_gain={case.get('fixed_gain')}, omit_vrms={case.get('omit_vrms')}, {case.get('nkind')})"
         if lvl is not None:
             got = res['db_at_vrms'][i]
-            if got is None or not _close(got, lvl):
-                return f'{tag}: {vr} Vrms should read as {lvl} dB, get_db gives {got}'
-            exp = vr * 10 ** ((L - lvl) / 20)
+            # a fixed gain passed through **kwargs lowers the level read by that many dB
+            if got is None or not _close(got, lvl - fg):
+                return f'{tag}: {vr} Vrms should read as {lvl - fg} dB, get_db gives {got}'
+            exp = vr * 10 ** ((L - lvl + fg) / 20)
             if not _close(res['sf_L'][i], exp):
                 return f'{tag}: get_sf({L}) = {res["sf_L"][i]}, expected {exp}'
         if name == 'unity':
@@ -596,8 +876,8 @@ def _oracle_ctor(case, res):
                 return f'{tag}: to_mv_pa() = {res["to_mv_pa"]}'
             if not _close(res['from_to'], res['sens'][0]):
                 return f'{tag}: from_mv_pa(to_mv_pa()) changes the sensitivity {res["sens"][0]} -> {res["from_to"]}'
-            if not _close(res['db_at_p'], _db_of(p / 20e-6)):
-                return f'{tag}: {p} Pa ({m * 1e-3 * p} V) reads as {res["db_at_p"]} dB SPL, expected {_db_of(p / 20e-6)}'
+            if not _close(res['db_at_p'], _db_of(p / 20e-6) - fg):
+                return f'{tag}: {p} Pa ({m * 1e-3 * p} V) reads as {res["db_at_p"]} dB SPL, expected {_db_of(p / 20e-6) - fg}'
         if 'alias' in res and res['alias'][i] != res['db_at_vrms'][i]:
             return f'{tag}: get_spl differs from get_db'
     if name in ('from_spl', 'from_mv_pa') and res['reference'] != 'SPL':
@@ -612,14 +892,33 @@ def _oracle_util(case, res):
         x, d = case['xs'][i], case['ds'][i]
         for what, got, exp in (('db(x)', res['db'][i], _db_of(x / r)), ('dbi(db(x)) = x', res['dbi_db'][i], x),
                                ('dbi(d)', res['dbi'][i], 10 ** (d / 20) * r),
+                               ('db(x, reference=r)', res['db_kw'][i], _db_of(x / r)),
+                               ('dbi(d, reference=r)', res['dbi_kw'][i], 10 ** (d / 20) * r),
                                ('db(dbi(d)) = d', res['db_dbi'][i], d),
                                ('db(10 x) = db(x) + 20', res['db_times10'][i], res['db'][i] + 20),
                                ('dbi(d + 20) = 10 dbi(d)', res['dbi_plus20'][i], 10 * res['dbi'][i]),
                                ('patodb', res['patodb'][i], _db_of(x / 20e-6)),
                                ('dbtopa(patodb(x)) = x', res['dbtopa_patodb'][i], x),
-                               ('db default reference 1', res['db_default'][i], _db_of(x))):
+                               ('db default reference 1', res['db_default'][i], _db_of(x)),
+                               ('dbi default reference 1', res['dbi_default'][i], 10 ** (d / 20))):
             if got is None or isinstance(got, str) or not _close(got, exp):
-                return f'util {what} fails at x={x}, d={d}, reference={r}: got {got}, expected {exp}'
+                return f'util {what} fails at x={x}, d={d}, reference={r} ({case["form"]}, {case.get("nkind")}): got {got}, expected {exp}'
+    return None
+
+
+def _oracle_starship(case, res):
+    pts_s = list(zip(map(Fraction, case['win_f']), map(Fraction, case['win_s'])))
+    pts_p = list(zip(map(Fraction, case['win_f']), map(Fraction, case['win_p'])))
+    for i, q in enumerate(case['qs']):
+        ws, wp = float(_interp_exact(pts_s, Fraction(q))), float(_interp_exact(pts_p, Fraction(q)))
+        if not _close(res['sens'][i], ws) or not _close(res['arr'][i], ws):
+            return f'load_demo_starship: sensitivity at {q} Hz is {res["sens"][i]}, the shipped table gives {ws}'
+        if not _close(res['phase'][i], wp):
+            return f'load_demo_starship: phase at {q} Hz is {res["phase"][i]}, the shipped table gives {wp}'
+        if not _close(res['rt'][i], case['L']):
+            return f'load_demo_starship: get_db(get_sf(L)) = {res["rt"][i]} at {q} Hz'
+    if any(x is not None for x in res['out']):
+        return f'load_demo_starship: outside the table {case["out"]} -> {res["out"]}'
     return None
 
 
@@ -629,13 +928,15 @@ def oracle(case, res):
         return _oracle_lookup(case, res)
     if k == 'ctor':
         return _oracle_ctor(case, res)
+    if k == 'starship':
+        return _oracle_starship(case, res)
     return _oracle_util(case, res)
 
 
 def nontrivial(case, res):
     k = case['kind']
     if k in ('interp', 'point'):
-        kinds = {_expected_sens(case, q) == 'none' for q in case['qs']}
+        kinds = {_outside(case, q) for q in case['qs']}
         return len(kinds) == 2 or case['g'] != 0 or case['a'] != 0
     if k == 'flat':
         return case['g'] != 0 or case['a'] != 0
@@ -648,23 +949,37 @@ def key(case, res):
 
 def distribution(cases, results):
     d = {'kinds': {}, 'queries': {'at_point': 0, 'between': 0, 'outside_or_uncalibrated': 0}, 'table_sizes': {},
-         'forms': {}, 'mean_requests': {'answered': 0, 'raised': 0}, 'constructors': {}}
+         'forms': {}, 'scalar_frequency_kinds': {}, 'level_voltage_kinds': {}, 'options': {}, 'mean_requests':
+         {'answered': 0, 'raised': 0, 'kinds': {}}, 'constructors': {}, 'int_container_with_fractional_sens': 0}
+
+    def inc(dd, k):
+        dd[k] = dd.get(k, 0) + 1
     for c, r in zip(cases, results):
-        d['kinds'][c['kind']] = d['kinds'].get(c['kind'], 0) + 1
+        inc(d['kinds'], c['kind'])
         if c['kind'] in ('interp', 'point'):
-            d['table_sizes'][len(c['freqs'])] = d['table_sizes'].get(len(c['freqs']), 0) + 1
+            inc(d['table_sizes'], len(c['freqs']))
             for q in c['qs']:
-                w = _expected_sens(c, q)
-                kk = 'outside_or_uncalibrated' if w == 'none' else 'at_point' if q in c['freqs'] else 'between'
+                kk = 'outside_or_uncalibrated' if _outside(c, q) else 'at_point' if q in c['freqs'] else 'between'
                 d['queries'][kk] += 1
         if c['kind'] in ('interp', 'point', 'flat'):
             for f in c['forms']:
-                d['forms'][f] = d['forms'].get(f, 0) + 1
+                inc(d['forms'], f)
+            inc(d['scalar_frequency_kinds'], c.get('qkind', 'float'))
+            inc(d['level_voltage_kinds'], c.get('nkind', 'float'))
+            for o in ('kw', 'set_g', 'ref', 'attrs', 'fill', 'phase', 'scalar_ctor', 'pd_int'):
+                if c.get(o) is not None and c.get(o) is not False:
+                    inc(d['options'], o)
+            ss = c['sens'] if c['kind'] != 'flat' else [c['s']]
+            if any(f.startswith('int') for f in c['forms']) and any(not _integral(s - c['g']) for s in ss):
+                d['int_container_with_fractional_sens'] += 1
             if c.get('mean') and isinstance(r, dict) and 'mean' in r:
                 d['mean_requests']['raised' if _iserr(r['mean']) else 'answered'] += 1
+                inc(d['mean_requests']['kinds'], c.get('mean_kind', 'int'))
         if c['kind'] == 'ctor':
-            n = f"{c['cls']}.{c['ctor']}"
-            d['constructors'][n] = d['constructors'].get(n, 0) + 1
+            inc(d['constructors'], f"{c['cls']}.{c['ctor']}")
+            for o in ('fixed_gain', 'omit_vrms', 'attrs'):
+                if c.get(o) is not None and c.get(o) is not False:
+                    inc(d['options'], 'ctor_' + o)
     return d
 
 
@@ -678,47 +993,63 @@ def _val(rng, style):
     return rng.uniform(-40, 130)
 
 
-def _lookup_case(rng, kind, small=False):
+QKINDS = ['float', 'int', 'npfloat', 'npint', 'npint32', '0d', '0dint', 'f32']
+INT_FORMS = ['intarr', 'intlist', 'inttuple', 'int32arr', 'int2d']
+FLOAT_FORMS = ['array', 'list', 'tuple', '2d', 'readonly']
+
+
+def _lookup_case(rng, kind, small=False, intworld=None):
+    """intworld: every frequency (table and queries) is an integer, so that integer-typed scalars and containers are
+    legal representations of the very same request; sensitivities stay fractional."""
+    if intworld is None:
+        intworld = rng.random() < 0.55
     n = rng.randint(2, 4 if small else 8)
-    fstyle = rng.choice(['int', 'int', 'float'])
-    if fstyle == 'int':
+    if intworld:
         fs = sorted(rng.sample(range(20, 300), n)) if rng.random() < 0.5 else \
             sorted(rng.sample([125, 250, 500, 1000, 2000, 4000, 8000, 16000, 32000, 64000], n))
         fs = [float(f) for f in fs]
+        sstyle = rng.choice(['float', 'float', 'half', 'int'])
     else:
         fs = sorted({round(rng.uniform(20, 20000), rng.choice([1, 3, 9])) for _ in range(n + 2)})[:n]
         while len(fs) < 2:
             fs.append(fs[-1] + 1.5)
-    sstyle = rng.choice(['int', 'half', 'float'])
+        sstyle = rng.choice(['int', 'half', 'float'])
     ss = [_val(rng, sstyle) for _ in fs]
     g = rng.choice([0.0, 0.0, float(rng.randint(-40, 40)), rng.uniform(-40, 40)])
-    form_f = rng.choice(['array', 'list', 'series'] + (['int'] if all(f == int(f) for f in fs) else []))
-    form_s = rng.choice(['array', 'list', 'series'] + (['int'] if all(s == int(s) for s in ss) else []))
+    tforms = ['array', 'list', 'series', 'tuple', 'readonly']
+    form_f = rng.choice(tforms + (['int', 'intlist'] if all(_integral(f) for f in fs) else []))
+    form_s = rng.choice(tforms + (['int', 'intlist'] if all(_integral(s) for s in ss) else []))
     order = list(range(len(fs)))
     if rng.random() < 0.3:
         rng.shuffle(order)
     if kind == 'point' and rng.random() < 0.15:
-        order.append(order[0])                 # duplicated calibrated frequency: the first entry answers
-        ss = ss + [ss[0] + 1.0]
+        ss = ss + [ss[0] + 1.0]                # duplicated calibrated frequency: the first entry answers
         fs = fs + [fs[0]]
         order = list(range(len(fs)))
     fs, ss = [fs[i] for i in order], [ss[i] for i in order]
     lo, hi = min(fs), max(fs)
     srt = sorted(set(fs))
-    qs = []
-    for _ in range(rng.randint(1, 3)):
-        qs.append(rng.choice(fs))
+    qs = [rng.choice(fs) for _ in range(rng.randint(1, 3))]
     qs += [lo, hi] if rng.random() < 0.5 else []
     for _ in range(rng.randint(1, 3)):
-        i = rng.randrange(len(srt) - 1) if len(srt) > 1 else 0
         if len(srt) > 1:
+            i = rng.randrange(len(srt) - 1)
             x0, x1 = srt[i], srt[i + 1]
-            q = rng.choice([(x0 + x1) / 2, x0 + (x1 - x0) * rng.random(), float(np.nextafter(x0, x1)),
-                            float(np.nextafter(x1, x0))])
+            if intworld:
+                q = float(rng.choice([int(x0) + 1, int(x1) - 1, (int(x0) + int(x1)) // 2]))
+            else:
+                q = rng.choice([(x0 + x1) / 2, x0 + (x1 - x0) * rng.random(), float(np.nextafter(x0, x1)),
+                                float(np.nextafter(x1, x0))])
             if x0 < q < x1:
                 qs.append(q)
-    out = [float(np.nextafter(lo, -np.inf)), float(np.nextafter(hi, np.inf)), lo - rng.choice([1, 0.5, 10]), hi + rng.choice([1, 0.25, 1000]),
-           lo / 2, hi * 2]
+    if intworld:
+        out = [lo - 1, hi + 1, float(int(lo) // 2), hi * 2, 0.0, lo - 10]
+    else:
+        out = [float(np.nextafter(lo, -np.inf)), float(np.nextafter(hi, np.inf)), lo - rng.choice([1, 0.5, 10]),
+               hi + rng.choice([1, 0.25, 1000]), lo / 2, hi * 2, -lo]
+    if kind == 'point' and not intworld:
+        f0 = rng.choice(fs)                     # the nearest representable neighbours of a calibrated frequency
+        out += [float(np.nextafter(f0, np.inf)), float(np.nextafter(f0, -np.inf))]
     for _ in range(rng.randint(0, 3) if kind != 'flat' else 1):
         qs.append(rng.choice(out))
     if kind == 'point' and rng.random() < 0.5:
@@ -726,30 +1057,62 @@ def _lookup_case(rng, kind, small=False):
     if len(qs) % 2:
         qs.append(rng.choice(fs))
     rng.shuffle(qs)
-    forms = ['array', 'list', '2d']
-    if all(q == int(q) for q in qs):
-        forms.append('intarr')
+    allint = all(_integral(q) for q in qs)
+    forms = rng.sample(FLOAT_FORMS, rng.randint(1, 3))
+    if allint:
+        forms += rng.sample(INT_FORMS, rng.randint(1, 3))
+    nkind = rng.choice(['float', 'float', 'int', 'npint'])
+    if nkind == 'float':
+        L = rng.choice([float(rng.randint(-20, 120)), rng.uniform(-20, 120), rng.uniform(-300, 300)])
+        a = rng.choice([0.0, 0.0, float(rng.randint(0, 60)), rng.uniform(-20, 60)])
+        v = float(10 ** rng.uniform(-4, 2)) if rng.random() < 0.9 else float(10 ** rng.uniform(-12, 6))
+    else:
+        L, a, v = float(rng.randint(-20, 120)), float(rng.choice([0, 0, rng.randint(1, 60)])), float(rng.randint(1, 20))
     case = {'kind': kind, 'freqs': fs, 'sens': ss, 'g': g, 'form_f': form_f, 'form_s': form_s, 'qs': qs,
-            'forms': sorted(rng.sample(forms, rng.randint(1, len(forms)))),
-            'L': rng.choice([float(rng.randint(-20, 120)), rng.uniform(-20, 120)]),
-            'a': rng.choice([0.0, 0.0, float(rng.randint(0, 60)), rng.uniform(-20, 60)]),
-            'v': float(10 ** rng.uniform(-4, 2))}
+            'forms': sorted(forms), 'L': L, 'a': a, 'v': v, 'nkind': nkind,
+            'qkind': rng.choice(QKINDS if allint else ['float', 'npfloat', '0d', 'f32']),
+            'gkind': rng.choice(['float', 'int', 'npint', 'npfloat']), 'g_mode': rng.choice(['kw', 'kw', 'pos', 'default']),
+            'kw': rng.random() < 0.5, 'pd_int': rng.random() < 0.6}
+    if rng.random() < 0.3:
+        case['set_g'] = rng.choice([0.0, 5.0, float(rng.randint(-30, 30))])
+    if rng.random() < 0.25:
+        case['ref'] = rng.choice(['SPL', 'Pa', 'dBV'])
+    if rng.random() < 0.2:
+        case['attrs'] = True
+    if kind == 'interp':
+        if rng.random() < 0.6:
+            case['phase'] = [rng.choice([rng.uniform(-3.2, 3.2), 0.0, float(rng.randint(-3, 3))]) for _ in fs]
+            case['form_p'] = rng.choice(['list', 'array', 'series', 'tuple'])
+        if rng.random() < 0.2:
+            case['fill'] = rng.choice([0.0, 0.0, float(rng.randint(-20, 120)), rng.uniform(0, 100)])
+    if kind == 'point' and rng.random() < 0.12:
+        f0 = fs[0]
+        case.update(freqs=[f0], sens=[ss[0]], scalar_ctor=True, skind=rng.choice(['float', 'int', 'npfloat']),
+                    qs=[f0, f0, f0 + 1, f0] if rng.random() < 0.5 else [f0, f0])
+        if not all(_integral(q) for q in case['qs']):
+            case['forms'] = [f for f in case['forms'] if not f.startswith('int')] or ['array']
+        fs, ss, lo, hi = case['freqs'], case['sens'], f0, f0
     if kind == 'flat':
-        case.update(s=ss[0], freqs=[], sens=[])
+        case.update(s=ss[0], freqs=[], sens=[], skind=rng.choice(['float', 'int', 'npfloat']))
         del case['form_f'], case['form_s']
-    # get_mean_sf over an integer range: inside / straddling an end / outside / empty
+    # get_mean_sf: inside / straddling an end / outside / empty; integer, float, NumPy-integer and off-integer bounds
     ilo, ihi = math.ceil(lo), math.floor(hi)
     u = rng.random()
     if kind == 'point':
-        c = int(rng.choice(fs)) if all(f == int(f) for f in fs) else int(lo)
-        case['mean'] = rng.choice([[c, c + 1], [c, c + 2], [c - 1, c + 1], [c, c]])
+        c = int(rng.choice(fs)) if all(_integral(f) for f in fs) else int(lo)
+        case['mean'] = rng.choice([[c, c + 1], [c, c + 2], [c - 1, c + 1], [c, c], [c, c + 0.5], [c + 0.5, c + 1.5]])
     elif ihi - ilo >= 1:
         w = rng.randint(1, min(40, ihi - ilo))
         s0 = rng.randint(ilo, ihi - w)
         case['mean'] = ([s0, s0 + w] if u < 0.4 else [ihi - w + 1, ihi + 1] if u < 0.55 else [ihi - w + 1, ihi + 2] if u < 0.65
                         else [ilo - 1, ilo + w] if u < 0.8 else [ilo, ilo + 1] if u < 0.85 else [ihi + 5, ihi + 9] if u < 0.92 else [s0, s0 - 3 * (u < 0.96)])
+        if rng.random() < 0.25 and kind != 'flat':
+            d = rng.choice([0.5, 0.25, -0.5])       # off-integer bounds: lo + d, lo + d + 1, ...
+            case['mean'] = [case['mean'][0] + d, case['mean'][1] + rng.choice([0, d, 0.75])]
     else:
         case['mean'] = [ilo, ilo + 1]
+    case['mean'] = [float(x) for x in case['mean']]
+    case['mean_kind'] = rng.choice(['int', 'float', 'npint', 'npfloat'])
     return case
 
 
@@ -763,12 +1126,17 @@ def _ctor_case(rng, cls=None, name=None, wide=False):
     nf = 1 if cls == 'flat' else rng.randint(2, 4)
     F = sorted(rng.sample([250.0, 500.0, 1000.0, 2000.0, 4000.0, 8000.0], nf)) if cls != 'flat' else [1000.0]
     per = cls != 'flat' and rng.random() < 0.5
+    nkind = rng.choice(['float', 'float', 'int', 'npint'])
 
     def pos():
+        if nkind != 'float':
+            return float(rng.randint(1, 20))
         e = rng.uniform(-5, 3) if wide else rng.uniform(-3, 2)
         return rng.choice([float(10 ** e), 1.0, 0.1, 2.0, float(rng.randint(1, 20))])
 
     def lvl():
+        if nkind != 'float':
+            return float(rng.randint(0, 120))
         return rng.choice([float(rng.randint(0, 120)), rng.uniform(-20, 130)])
 
     def many(f, allow):
@@ -782,7 +1150,18 @@ def _ctor_case(rng, cls=None, name=None, wide=False):
         A['vrms'] = pos()
     elif name == 'from_mv_pa':
         A['mv_pa'] = pos()
-    case = {'kind': 'ctor', 'cls': cls, 'ctor': name, 'args': A, 'L': lvl(), 'freqs': F}
+    case = {'kind': 'ctor', 'cls': cls, 'ctor': name, 'args': A, 'L': lvl(), 'freqs': F, 'nkind': nkind,
+            'arg_form': rng.choice(['array', 'list', 'tuple', 'intlist', 'int', 'series']),
+            'form_f': rng.choice(['array', 'list', 'tuple', 'int', 'intlist'])}
+    if name != 'unity':
+        if rng.random() < 0.4:
+            case['fixed_gain'] = rng.choice([float(rng.randint(-40, 40)), 0.0]) if nkind != 'float' else \
+                rng.choice([float(rng.randint(-40, 40)), rng.uniform(-40, 40)])
+        if rng.random() < 0.2:
+            case['attrs'] = True
+        if 'vrms' in A and rng.random() < 0.25:
+            case['omit_vrms'] = True
+            A['vrms'] = 1.0
     if name == 'from_mv_pa':
         case['p'] = pos()
     return case
@@ -790,20 +1169,53 @@ def _ctor_case(rng, cls=None, name=None, wide=False):
 
 def _util_case(rng):
     n = rng.randint(1, 5)
-    return {'kind': 'util', 'xs': [float(10 ** rng.uniform(-6, 4)) for _ in range(n)],
-            'ds': [rng.choice([float(rng.randint(-120, 140)), rng.uniform(-120, 140)]) for _ in range(n)],
-            'r': rng.choice([1.0, 20e-6, float(10 ** rng.uniform(-5, 2))]),
-            'form': rng.choice(['list', 'array', 'series', 'scalar'])}
+    nkind = rng.choice(['float', 'float', 'int', 'npint'])
+    if nkind == 'float':
+        xs = [float(10 ** rng.uniform(-6, 4)) for _ in range(n)]
+        ds = [rng.choice([float(rng.randint(-120, 140)), rng.uniform(-120, 140)]) for _ in range(n)]
+        r = rng.choice([1.0, 20e-6, float(10 ** rng.uniform(-5, 2))])
+    else:
+        xs = [float(rng.randint(1, 5000)) for _ in range(n)]
+        ds = [float(rng.randint(-120, 140)) for _ in range(n)]
+        r = float(rng.choice([1, 2, 10, 1000]))
+    return {'kind': 'util', 'xs': xs, 'ds': ds, 'r': r, 'nkind': nkind,
+            'form': rng.choice(['list', 'tuple', 'array', 'series', 'frame', 'scalar'])}
+
+
+_STARSHIP = None
+
+
+def _starship_case(rng):
+    """A window of the shipped demo table, read independently of psiaudio (csv module)."""
+    global _STARSHIP
+    import csv
+    if _STARSHIP is None:
+        path = os.path.join(vlib.REPO, 'psiaudio', 'resources', 'starship_cal.csv')
+        with open(path) as f:
+            rows = list(csv.DictReader(f))
+        _STARSHIP = [(float(r['freq']), float(r['SPL']), float(r['phase'])) for r in rows]
+    T = _STARSHIP
+    i = rng.choice([0, len(T) - 6, rng.randrange(len(T) - 6)])
+    win = T[i:i + 6]
+    qs = [win[0][0], win[5][0], win[2][0], (win[2][0] + win[3][0]) / 2, win[1][0] + (win[2][0] - win[1][0]) * rng.random(),
+          float(np.nextafter(win[4][0], win[3][0]))]
+    return {'kind': 'starship', 'win_f': [w[0] for w in win], 'win_s': [w[1] for w in win], 'win_p': [w[2] for w in win],
+            'qs': qs, 'L': float(rng.randint(0, 100)),
+            'out': [float(np.nextafter(T[0][0], -np.inf)), float(np.nextafter(T[-1][0], np.inf)), 0.0, T[-1][0] * 2]}
 
 
 def corpus():
-    """Fixed cases that are always run first: the unit-test table, and the inputs on which the two defects repaired in
-    branch fix-C07 were found."""
+    """Fixed cases that are always run first: the unit-test table, the inputs on which the two defects repaired in
+    branch fix-C07 were found, and the integer-typed / keyword / set_fixed_gain variants added by the coverage audit."""
     f = [500.0, 1000.0, 2000.0, 4000.0, 8000.0, 16000.0]
     s = [80.0, 90.0, 100.0, 100.0, 90.0, 80.0]
+    s2 = [80.25, 90.5, 100.75, 100.125, 90.5, 80.25]
     base = {'freqs': f, 'sens': s, 'g': 0.0, 'form_f': 'int', 'form_s': 'int',
             'qs': [50.0, 500.0, 750.0, 16000.0, 20000.0, 1000.0], 'forms': ['array', 'list', '2d', 'intarr'],
             'L': 90.0, 'a': 20.0, 'v': 1.0}
+    aud = dict(base, sens=s2, form_s='array', qs=[500.0, 750.0, 16000.0, 1000.0], g=2.5, set_g=0.0, kw=True, nkind='int',
+               qkind='int', forms=['intarr', 'intlist', 'inttuple', 'int32arr', 'int2d', 'tuple', 'readonly'], pd_int=True,
+               ref='SPL', mean_kind='float')
     return [dict(base, kind='interp', mean=[500, 600]), dict(base, kind='interp', mean=[400, 600]),
             dict(base, kind='point', mean=[500, 501]), dict(base, kind='point', qs=[500.0, 16000.0], mean=[500, 502]),
             {'kind': 'flat', 's': 100.0, 'g': 10.0, 'freqs': [], 'sens': [], 'qs': [5.0, 1000.0], 'forms': ['array', 'list'],
@@ -813,23 +1225,30 @@ def corpus():
             {'kind': 'ctor', 'cls': 'interp', 'ctor': 'from_pascals', 'args': {'magnitude': [2.0, 0.2], 'vrms': 0.5},
              'L': 94.0, 'freqs': [1000.0, 2000.0]},
             {'kind': 'ctor', 'cls': 'flat', 'ctor': 'from_mv_pa', 'args': {'mv_pa': 1.85}, 'L': 94.0, 'freqs': [1000.0],
-             'p': 1.0}]
+             'p': 1.0},
+            dict(aud, kind='interp', mean=[500.0, 600.0], phase=[0.5, 0.25, 0.0, -0.25, -0.5, -1.0], form_p='array'),
+            dict(aud, kind='point', qs=[500.0, 16000.0, 1000.0, 500.0], mean=[500.0, 501.0]),
+            {'kind': 'flat', 's': 93.97940008672037, 'g': 0.0, 'set_g': 7.0, 'freqs': [], 'sens': [], 'qs': [5.0, 1000.0],
+             'forms': ['intarr', 'intlist', 'inttuple', 'int32arr', 'int2d', 'tuple'], 'L': 80.0, 'a': 20.0, 'v': 2.0,
+             'nkind': 'int', 'qkind': 'npint', 'kw': True, 'pd_int': True, 'mean': [1.0, 2.0], 'mean_kind': 'npint'}]
 
 
 def cases(tier, rng):
     quick = tier == 'quick'
     for cls, names in CTORS.items():
         for name in names:
-            for _ in range(6 if quick else 60):
+            for _ in range(8 if quick else 80):
                 yield _ctor_case(rng, cls, name)
-    for _ in range(220 if quick else 4000):
+    for _ in range(200 if quick else 4000):
         yield _lookup_case(rng, 'interp')
-    for _ in range(140 if quick else 2500):
+    for _ in range(130 if quick else 2500):
         yield _lookup_case(rng, 'point')
-    for _ in range(60 if quick else 800):
+    for _ in range(80 if quick else 1000):
         yield _lookup_case(rng, 'flat')
-    for _ in range(40 if quick else 500):
+    for _ in range(50 if quick else 500):
         yield _util_case(rng)
+    for _ in range(6 if quick else 60):
+        yield _starship_case(rng)
 
 
 def search(tier, rng):
